@@ -27,7 +27,8 @@ RULE = ("corpus of recon inputs and past failures first (corpus/C19/cases.json),
         "define/const lists up to all scalars, module, export, units) and query/tag selections; in addition ONE exporter object per (environment, back-end) lives through a history "
         "parse, parse(other options), select, parse(same options), parse(other options), re-select, parse, parse(other options) "
         "and every parse is compared with the export of a fresh object for the selection and options then in force; "
-        "non-trivial = selection contains an "
+        "finally environments whose numeric nodes were re-assigned before the export (other unit of the same dimension, same "
+        "unit, no unit; scalars and arrays) are exported as DIP text and re-read; non-trivial = selection contains an "
         "array or >= 3 parameters, or a history; distinct = canonical JSON of (source, back-end, options, selection)")
 ASSUMPTIONS = [
     "the installed gcc, g++, gfortran (-ffree-line-length-none), rustc, bash (non-interactive: no history expansion of '!') are the "
@@ -47,6 +48,10 @@ ASSUMPTIONS = [
     "histories on one exporter object: the reference for every parse is a fresh object with the same constructor options, the "
     "current selection and the same parse options (whose meaning the other streams check); in the C back-end an "
     "#include <stdbool.h> kept from an earlier export of the same object is not a difference (it defines no symbol)",
+    "environments whose nodes were re-assigned before the export (an integer node re-assigned in another unit stores a float) "
+    "are judged in the DIP-text back-end, with integer nodes counted by the integers their integral content denotes; a "
+    "non-integral content of an integer node is outside the domain; the other back-ends are not judged on such environments "
+    "(they write the stored float, e.g. 200.0, for an integer node: see the report)",
     "names that are keywords of a target language on their own are outside the domain (not identifiers there); names and "
     "strings merely containing keywords are inside",
     "rust float128 -> f64 is the documented exception; JSON/YAML/TOML carry no declared widths",
@@ -452,8 +457,24 @@ def dip_source(specs):
     return "\n".join(lines) + "\n"
 
 
-def parse_env(src):
-    """Parse with the real DIP; returns (env, [P]) or None when the source is rejected."""
+def integral(v):
+    """nested ints for a nested value whose numbers are all integral, else None"""
+    if isinstance(v, list):
+        out = [integral(x) for x in v]
+        return None if any(x is None for x in out) else out
+    if isinstance(v, bool):
+        return None
+    if isinstance(v, int):
+        return v
+    if isinstance(v, float) and math.isfinite(v) and v == int(v):
+        return int(v)
+    return None
+
+
+def parse_env(src, coerce=False):
+    """Parse with the real DIP; returns (env, [P]) or None when the source is rejected.
+    coerce: an integer node that holds integral floats (it was re-assigned in another unit) counts with the
+    integers they denote; a non-integral content of an integer node is outside the domain."""
     from scinumtools.dip import DIP
     from scinumtools.dip.settings import Format
     from scinumtools.dip.datatypes import StringType, BooleanType, FloatType, IntegerType
@@ -477,9 +498,14 @@ def parse_env(src):
             kind, bits = "float", int(p.precision)
         else:
             return None
-        if not well_typed(kind, p.value):
+        value = p.value
+        if coerce and kind in ("int", "uint"):
+            value = integral(value)
+            if value is None:
+                return None
+        if not well_typed(kind, value):
             return None
-        ps.append(P(name, kind, bits, p.value, p.unit if kind not in ("bool", "str") else None, tags.get(name, [])))
+        ps.append(P(name, kind, bits, value, p.unit if kind not in ("bool", "str") else None, tags.get(name, [])))
     if len({p.name for p in ps}) != len(ps):
         return None
     return env, ps
@@ -1731,6 +1757,44 @@ def judge_dip_case(ctx, c, m, sel, text):
                           c.replay(param=p.brief(), reread=q.brief() if q else None))
 
 
+# =============================================================== nodes modified before the export
+UNIT_PAIRS = [("cm", "m", 100), ("mm", "cm", 10), ("m", "km", 1000), ("g", "kg", 1000), ("mm", "m", 1000)]
+
+
+def gen_modified_source(rng, dip_types):
+    """Definitions with units followed by re-assignments in a larger unit of the same dimension (the stored value of
+    an integer node becomes a float), in the same unit, and of unit-less nodes; floats re-assigned with integers."""
+    nums = [kb for kb in dip_types if kb[0] in ("int", "uint", "float") and kb[1] >= 16]
+    defs, mods = [], []
+    for i in range(rng.randint(1, 4)):
+        kind, bits = rng.choice(nums)
+        name = rng.choice(["", "", "box.", "sim."]) + rng.choice(["width", "cells", "n", "len", "mass", "k"]) + str(i)
+        kw = {"int": "int", "uint": "uint", "float": "float"}[kind]
+        if (kind in ("int", "uint") and bits != 32) or (kind == "float" and bits != 64):
+            kw += str(bits)
+        shape = rng.choice([[], [], [rng.randint(1, 3)], [rng.randint(1, 2), rng.randint(1, 3)]])
+        u1, u2, fac = rng.choice(UNIT_PAIRS)
+        mode = rng.choice(["other-unit", "other-unit", "same-unit", "no-unit"])
+
+        def lit(lo, hi):
+            v = rng.randint(lo, hi)
+            if kind == "float" and rng.random() < 0.5:
+                return repr(v + rng.choice([0.0, 0.5, 0.25]))
+            return str(v)
+        dims = "[%s]" % ",".join(map(str, shape)) if shape else ""
+        txt = lambda lo, hi: json.dumps(build_array(shape, lambda: "@"), separators=(",", ":")).replace('"@"', "%s") % \
+            tuple(lit(lo, hi) for _ in range(int(np.prod(shape)) if shape else 1)) if shape else lit(lo, hi)
+        unit = "" if mode == "no-unit" else " " + u1
+        defs.append("%s %s%s = %s%s" % (name, kw, dims, txt(1, 9), unit))
+        if mode == "other-unit":
+            mods.append("%s = %s %s" % (name, txt(1, 3), u2))
+        elif mode == "same-unit":
+            mods.append("%s = %s %s" % (name, txt(1, 300), u1))
+        else:
+            mods.append("%s = %s" % (name, txt(1, 300)))
+    return "\n".join(defs + mods) + "\n"
+
+
 # =============================================================== histories on ONE exporter object
 def export_cls(backend):
     from scinumtools.dip import config as cfg
@@ -1881,6 +1945,20 @@ def correspond(ctx: Ctx):
             ctx.count("history." + b)
             ctx.case([src, b, "history", steps], True, None)
             run_history(ctx, src, env, ps, b, steps)
+    # nodes that were re-assigned (in another unit) before the export: DIP text back-end
+    mod_cases = []
+    path = core.VERIF / "corpus" / "C19" / "modified.json"
+    mod_sources = json.loads(path.read_text(encoding="utf-8")) if path.exists() else []
+    mod_sources += [gen_modified_source(rng, dip_types) for _ in range(300 if thorough else 40)]
+    for src in mod_sources:
+        r = parse_env(src, coerce=True)
+        if r is None:
+            ctx.count("skipped.modified-env-rejected")
+            continue
+        ctx.count("modified-environments")
+        mod_cases.append(Case(src, r[0], r[1], "dip", {}, None, None, origin="modified"))
+    for i in range(0, len(mod_cases), 400):
+        run_cases(ctx, mod_cases[i:i + 400])
     ctx.extra["compilers"] = "gcc, g++, gfortran -ffree-line-length-none, rustc --edition 2021, bash"
 
 
@@ -1891,7 +1969,7 @@ def replay(ctx, payload):
     if "source" not in r:
         print(json.dumps(payload, indent=1)[:4000])
         return 2
-    pe = parse_env(r["source"])
+    pe = parse_env(r["source"]) or parse_env(r["source"], coerce=True)
     if pe is None:
         print("replay: the DIP source is rejected by the parser")
         return 2
